@@ -74,8 +74,15 @@ def run(ctx):
     pushes = gh.calls(r'Vec::<[^>]*>::push$')
     appends = gh.calls(r'Vec::<[^>]*>::append$')
     wa = gh.calls(r'Write::write_all$|::write_all$')
-    rep.check(r3, len(pushes) == 2 and len(appends) == 1 and len(wa) == 1, 'shape', '%d push sites, %d append, %d write_all' % (len(pushes), len(appends), len(wa)))
-    if len(pushes) == 2 and len(appends) == 1 and len(wa) == 1:
+    # a 32-bit little-endian field may also be written as extend_from_slice(&(x as u32).to_le_bytes())
+    le_sites = []
+    for bi_, t_ in gh.calls(r'Vec::<[^>]*>::extend_from_slice$'):
+        v_ = peel(gh.argv(bi_, 1), unwraps=False)
+        if is_call(v_, r'<impl u32>::to_le_bytes$'):
+            le_sites.append((bi_, v_[2][0]))
+    n_le = len(pushes) + len(le_sites)
+    rep.check(r3, n_le == 2 and len(appends) == 1 and len(wa) == 1, 'shape', '%d 32-bit length fields (%d byte-push loops, %d to_le_bytes), %d append, %d write_all' % (n_le, len(pushes), len(le_sites), len(appends), len(wa)))
+    if n_le == 2 and len(appends) == 1 and len(wa) == 1:
         data_e = peel(gh.argv(wa[0][0], 1))
         comp = peel(gh.argv(appends[0][0], 1), unwraps=False)
         okc = is_call(comp, r'expect$|unwrap$') and calls_in(comp, r'flate2::.*::finish$') != []
@@ -86,7 +93,7 @@ def run(ctx):
         rep.check(r3, okm, 'starts-with-magic', 'result initialised with %s' % [short(a) for a in res0])
         # order: push(total) loop, push(uncompressed) loop, append
         order_ok = True
-        for pb, _ in pushes:
+        for pb, _ in list(pushes) + le_sites:
             later = set()
             for s in gh.succ[appends[0][0]]:
                 later |= gh.reachable(s)
@@ -117,6 +124,14 @@ def run(ctx):
                 kinds['total'] = (pb, ok and okr, init)
             else:
                 kinds['?%d' % pb] = (pb, False, v)
+        for pb, x in le_sites:
+            init = peel(x, casts=True)
+            # `as u32` keeps the low 32 bits - the same four bytes the (x % 256, x /= 256) x4 loop emits
+            okc_ = isinstance(peel(x), tuple) and peel(x)[0] == 'cast' and peel(x)[3] == 'u32'
+            if is_call(peel(init), r'len$') and peel(peel(init)[2][0]) == data_e:
+                kinds['uncompressed'] = (pb, okc_, init)
+            else:
+                kinds['total'] = (pb, okc_, init)
         for k_ in ['total', 'uncompressed']:
             if k_ not in kinds:
                 rep.bad(r3, 'le32:' + k_, 'no (x % 256, x /= 256) x4 loop found for the %s length' % k_)
